@@ -14,12 +14,12 @@ Section C06.
 
   Theorem store_valid_invariant :
     reg_wf O L reg -> (forall a b, veqb a b = true -> a = b) ->
-    forall fuel tr o st log,
-      WellBehaved O reg tr -> resolve O veqb fuel r rv tr = (o, st, log) ->
+    forall fuel tr o st log k,
+      WellBehaved O reg tr -> resolve O veqb fuel r rv tr = (o, st, log, k) ->
       forall id i, nth_error (store st) id = Some i -> Valid O reg r rv (terms i).
   Proof.
-    intros Hw Hv fuel tr o st log Hwb E.
-    exact (proj1 (resolve_store_valid O L veqb reg r rv Hw Hv fuel tr o st log Hwb E)).
+    intros Hw Hv fuel tr o st log k Hwb E.
+    exact (proj1 (resolve_store_valid O L veqb reg r rv Hw Hv fuel tr o st log k Hwb E)).
   Qed.
 
   (* the rule of resolution, and the external constructors, on their own *)
